@@ -465,6 +465,18 @@ def gen_case(L, case, st):
         cb_check(L, st, "generate")
         return
     st.sample({"n": n, "n_to_use": n_use, "input_index": idx, "proof_head": hx(ser[:40])})
+    # serialize into EVERY declared buffer length below the needed one (and the needed one, +1) on an exactly sized heap buffer:
+    # too short => 0 and nothing written past the buffer (ASan red zone), sufficient => 1 with the same bytes
+    need = len(ser)
+    for room in (range(0, need + 2) if need <= 420 else list(range(0, 70)) + [need - 33, need - 2, need - 1, need, need + 1]):
+        ob_ = exact(b"\xee" * max(room, 1))
+        ln_ = c_size_t(room)
+        r_ = L.surjectionproof_serialize(L.ctx, ob_, byref(ln_), proof)
+        st.calls += 1
+        if r_ != (1 if room >= need else 0) or (r_ == 1 and (ln_.value != need or bytes(ob_[:need]) != ser)):
+            st.fail("surjectionproof_serialize into a %d-byte buffer (proof needs %d) returned %d / length %d" % (room, need, r_, ln_.value), cd)
+            break
+    st.count("serialize-every-length")
     # key variants that must be refused: out of range keys
     for what, ik, okey in (("in=n", N, ob), ("out=n", ib[idx], N), ("in=2^256-1", 2**256 - 1, ob), ("out=n+1", ib[idx], N + 1)):
         ret, p2, idx2 = do_init(L, tags, n_use, seed, slot=2)
